@@ -76,7 +76,7 @@ def fill_scenarios(rng, quick):
     """pixman_fill / pixman_blt sweeps.  Each scenario: one raw buffer pair, ~24 calls."""
     execs = []
     k = 0
-    per_bpp = 14 if quick else 260
+    per_bpp = 11 if quick else 260
     for bpp in (1, 4, 8, 16, 24, 32):
         for si in range(per_bpp):
             lines = ["R fill%d_%d" % (bpp, k)]
@@ -507,6 +507,175 @@ def random_behaviour(rng):
 
 
 # ------------------------------------------------------------------------------------------
+# directed matrices: {one vs several boxes / glyphs / shapes} x {no / one-rectangle / multi-rectangle clip}
+# (implementations special-case "a single box" and "a single-rectangle region"; extents are not the region)
+
+MW, MH = 12, 6
+
+
+def clip_kinds():
+    W, H = MW, MH
+    return [("none", None),
+            ("one", [[2, 1, 10, 5]]),
+            ("two_h", [[1, 1, 4, 5], [8, 1, 11, 5]]),               # gap: columns 4..7
+            ("two_v", [[1, 0, 11, 2], [1, 4, 11, 6]]),              # gap: rows 2..3
+            ("three", [[0, 0, 3, 3], [5, 1, 8, 5], [9, 3, 12, 6]]),
+            ("ell", [[1, 1, 4, 6], [4, 4, 11, 6]]),                 # L shape: the upper right of its extents is outside
+            ("ell3", [[1, 0, 3, 6], [3, 0, 11, 2], [9, 2, 11, 4]]),
+            ("beyond", [[-2, -1, 5, 3], [7, 2, W + 2, H + 2]])]     # reaches outside the image
+
+
+def extents_of(clip):
+    if not clip:
+        return [0, 0, MW, MH]
+    return [min(b[0] for b in clip), min(b[1] for b in clip), max(b[2] for b in clip), max(b[3] for b in clip)]
+
+
+def placed_box(rng, clip, how):
+    e = extents_of(clip)
+    if how == "inside":                     # inside the first clip rectangle
+        b = clip[0] if clip else e
+        b = [max(b[0], 0), max(b[1], 0), min(b[2], MW), min(b[3], MH)]
+        return [b[0] + rng.choice([0, 1]), b[1] + rng.choice([0, 1]), b[2] - rng.choice([0, 1]), b[3]]
+    if how == "exact":                      # exactly the bounding box of the clip
+        return list(e)
+    if how == "span":                       # inside the bounding box, across the gaps between the clip rectangles
+        return [e[0] + rng.choice([0, 0, 1]), e[1] + rng.choice([0, 0, 1]), e[2] - rng.choice([0, 0, 1]), e[3] - rng.choice([0, 1])]
+    if how == "out":                        # sticks out of the bounding box (and perhaps of the image) on one side
+        b = list(e)
+        i = rng.randrange(4)
+        b[i] += -1 if i < 2 else 1
+        return [max(b[0], -2), max(b[1], -2), min(b[2], MW + 2), min(b[3], MH + 2)]
+    return [0, 0, MW, MH]                   # "all": the whole image
+
+
+FILL_OPS = [("SRC", None), ("OVER", 0xffff), ("CLEAR", None), ("OVER", 0x8000), ("ADD", None), ("IN", 0xffff)]
+
+
+def fill_matrix_scenarios(rng, quick, formats, drv):
+    """fill_boxes / fill_rectangles: n in {1, 2, 3, 7} x clip kind x box placement x operator.
+       drv: "fill" (drv_fill, C19) or "frame" (drv_frame, C03)"""
+    execs = []
+    k = 0
+    for fmt in formats:
+        st = min_stride(fmt, MW) + (4 if k % 2 else 0)
+        gb, ga = 2 * st + 16 + 4 * (k % 4), 2 * st + 32
+        for cname, clip in clip_kinds():
+            lines = ["R fm_%s_%s_%d" % (fmt, cname, k)]
+            k += 1
+            seed = rng.randrange(1 << 30)
+            if drv == "fill":
+                lines.append("D %s %d %d %d %d %d %d" % (fmt, MW, MH, st, gb, ga, seed))
+                lines.append("C -1" if clip is None else "C %d %s" % (len(clip), " ".join(str(c) for b in clip for c in b)))
+            else:
+                lines.append("I dst %s %d %d %d %d %d %d" % (fmt, MW, MH, st, gb, ga, seed))
+                if clip is not None:
+                    lines.append("C dst %d %s" % (len(clip), " ".join(str(c) for b in clip for c in b)))
+            lines.append("S")
+            for how in ("inside", "span", "exact", "out", "all"):
+                for n in (1, 2, 3, 7):
+                    if n == 7 and how != "span":
+                        continue
+                    if n == 1 or not quick:
+                        ops = FILL_OPS                      # the single-box case gets every operator class
+                    else:
+                        ops = rng.sample(FILL_OPS, 2)
+                    for op, alpha in ops:
+                        col = colour(rng)
+                        if alpha is not None:
+                            col[3] = alpha
+                        boxes = [placed_box(rng, clip, how)] + [near_box(rng, MW, MH) for _ in range(n - 1)]
+                        rng.shuffle(boxes)
+                        if rng.random() < 0.35:
+                            vals = [c for b in boxes for c in (b[0], b[1], max(0, b[2] - b[0]), max(0, b[3] - b[1]))]
+                            lines.append("fillrects %s %s %d %s" % (op, " ".join(map(str, col)), n, " ".join(map(str, vals))))
+                        else:
+                            vals = [c for b in boxes for c in b]
+                            lines.append("fillboxes %s %s %d %s" % (op, " ".join(map(str, col)), n, " ".join(map(str, vals))))
+            execs.append(lines)
+    return execs
+
+
+def draw_matrix_scenarios(rng, quick, formats):
+    """composite32 / compute_composite_region / glyphs / trapezoids / rasterisers:
+       destination clip kind x source clip kind (x mask clip kind) x {one, several} glyphs / shapes"""
+    execs = []
+    k = 0
+    srckinds = [("none", None, None), ("one_on", [[1, 0, 9, 6]], (1, 1)), ("multi_on", [[0, 0, 12, 2], [0, 3, 5, 6], [7, 3, 12, 6]], (1, 1)),
+                ("multi_off", [[0, 0, 2, 2], [6, 3, 8, 6]], (1, 0))]
+    maskkinds = [("nomask", None, None), ("mask_one", [[0, 1, 11, 6]], (1, 1)), ("mask_multi", [[0, 0, 6, 6], [8, 0, 12, 3]], (1, 1))]
+    for fmt in formats:
+        st = min_stride(fmt, MW) + (4 if k % 2 else 0)
+        gb, ga = 2 * st + 16 + 4 * (k % 4), 2 * st + 32
+        for cname, clip in clip_kinds():
+            if quick and cname in ("ell3", "beyond", "two_v") and k % 2:
+                k += 1
+                continue
+            for sname, sclip, sflags in srckinds:
+                mname, mclip, mflags = maskkinds[(k // 2) % 3] if sname != "none" or k % 3 == 0 else maskkinds[0]
+                lines = ["R dm_%s_%s_%s_%s_%d" % (fmt, cname, sname, mname, k)]
+                k += 1
+                lines.append("I dst %s %d %d %d %d %d %d" % (fmt, MW, MH, st, gb, ga, rng.randrange(1 << 30)))
+                if clip is not None:
+                    lines.append("C dst %d %s" % (len(clip), " ".join(str(c) for b in clip for c in b)))
+                if rng.random() < 0.5:
+                    lines.append("I src solid %d %d %d 65535" % tuple(colour(rng)[:3]))
+                else:
+                    lines.append("I src bits %s %d %d %d %d" % (rng.choice(["a8r8g8b8", "x8r8g8b8", "a8"]), MW + 2, MH + 2,
+                                                              rng.randrange(1 << 30), rng.choice([0, 1])))
+                if sclip is not None:
+                    lines.append("C src %d %s" % (len(sclip), " ".join(str(c) for b in sclip for c in b)))
+                    lines.append("F src %d %d" % sflags)
+                if mname != "nomask":
+                    lines.append("I mask bits a8 %d %d %d 1" % (MW + 1, MH + 1, rng.randrange(1 << 30)))
+                    lines.append("C mask %d %s" % (len(mclip), " ".join(str(c) for b in mclip for c in b)))
+                    lines.append("F mask %d %d" % mflags)
+                for g in GLYPHS:
+                    lines.append("G %d %s %d %d %d %d %d" % (g[0], g[1], g[2], g[3], g[4], g[5], rng.randrange(1 << 30)))
+                lines.append("S")
+                soff = rng.choice([(0, 0), (1, 0), (-1, 1)])
+                moff = rng.choice([(0, 0), (0, -1)])
+                for how in ("span", "exact", "out", "all"):
+                    b = placed_box(rng, clip, how)
+                    args = (b[0] - soff[0], b[1] - soff[1], b[0] - moff[0], b[1] - moff[1], b[0], b[1], b[2] - b[0], b[3] - b[1])
+                    lines.append("region %d %d %d %d %d %d %d %d" % args)
+                    lines.append("composite %s %d %d %d %d %d %d %d %d" % ((rng.choice(["SRC", "SRC", "OVER", "CLEAR", "ADD", "IN"]),) + args))
+                # glyphs: one glyph across the gaps, then several
+                wide = [1, 3, 3]                       # glyph 1 is 5x2 with origin (0,2): covers columns 3..7, rows 1..2
+                many = [1, 3, 3, 0, 6, 4, 2, 9, 1, 3, 1, 2]
+                for gl in (wide, many):
+                    n = len(gl) // 3
+                    lines.append("glyphsnm %s %d %d 0 0 %d %s" % (rng.choice(["OVER", "SRC", "ADD"]), -soff[0], -soff[1], n,
+                                                                 " ".join(map(str, gl))))
+                    lines.append("glyphs %s a8 %d %d 0 0 0 0 %d %d %d %s" % (rng.choice(["OVER", "ADD", "SRC"]), -soff[0], -soff[1],
+                                                                           MW, MH, n, " ".join(map(str, gl))))
+                # trapezoids / triangles: one shape across the whole image, then three
+                mf = fmt if fmt in A_FORMATS else "a8"
+                for n in (1, 3):
+                    shapes = trapezoid_for(rng, [0, 0, MW, MH], slant=False)
+                    for _ in range(n - 1):
+                        shapes += trapezoid_for(rng, near_box(rng, MW, MH))
+                    for op in ("ADD", rng.choice(["OVER", "SRC", "IN"])):
+                        lines.append("ctraps %s %s %d %d 0 0 %d %s" % (op, mf, -soff[0], -soff[1], n, " ".join(map(str, shapes))))
+                    tri = triangle_for(rng, [-1, -1, MW + 1, MH + 1])
+                    for _ in range(n - 1):
+                        tri += triangle_for(rng, near_box(rng, MW, MH))
+                    lines.append("ctris %s %s %d %d 0 0 %d %s" % (rng.choice(["ADD", "OVER"]), mf, -soff[0], -soff[1], n,
+                                                                 " ".join(map(str, tri))))
+                    if fmt in A_FORMATS:
+                        kind = rng.choice(["addtraps", "addtrapezoids", "addtris", "rasterize"])
+                        m = 1 if kind == "rasterize" else n
+                        sh = []
+                        for i in range(m):
+                            bb = [0, 0, MW, MH] if i == 0 else near_box(rng, MW, MH)
+                            sh += trap_for(rng, bb) if kind == "addtraps" else triangle_for(rng, bb) if kind == "addtris" \
+                                else trapezoid_for(rng, bb)
+                        lines.append("%s 0 0 %d %s" % (kind, m, " ".join(map(str, sh))))
+                execs.append(lines)
+    return execs
+
+
+# ------------------------------------------------------------------------------------------
 
 def run_driver(exe, script_lines, wd, tag, chain):
     sp = os.path.join(wd, tag + ".ndjson.script")
@@ -514,14 +683,12 @@ def run_driver(exe, script_lines, wd, tag, chain):
         for e in script_lines:
             f.write("\n".join(e) + "\n")
     tr = os.path.join(wd, tag + ".ndjson")
-    env = dict(os.environ)
-    env["PIXMAN_DISABLE"] = chain
-    import subprocess
-    p = subprocess.run([exe, sp, tr], env=env, timeout=900, stdout=subprocess.PIPE, stderr=subprocess.PIPE,
-                       text=True, errors="replace")
-    if p.returncode != 0:
-        raise vf.Infra("%s failed rc=%d: %s" % (os.path.basename(exe), p.returncode, p.stderr[-1000:]))
-    return tr, p.stdout
+    # an abnormal end (signal, abort, timeout) leaves a Crash event in the trace and is judged by TLC;
+    # exit code 3 is the driver's own "cannot read the script / create the image" = a fault of this orchestrator
+    rc, out = vf.run_driver([exe, sp, tr], tr, env={"PIXMAN_DISABLE": chain}, timeout=900)
+    if rc == 3:
+        raise vf.Infra("%s could not execute its script: %s" % (os.path.basename(exe), out[-1000:]))
+    return tr, out
 
 
 def tally(chk, tracefile, chain, prop):
@@ -645,8 +812,15 @@ def run(prop, args):
         if not quick:
             fmts += ["b8g8r8", "x2b10g10r10", "a2r2g2b2", "x4a4", "r1g2b1", "a1r1g1b1", "rgb_float", "x1r5g5b5", "x4b4g4r4"]
         execs += fillboxes_scenarios(rng, quick, fmts, 4 if quick else 50)
+        mfm = [DIRECT[args.seed % len(DIRECT)], rng.choice(["a1", "a8", "r5g6b5", "r8g8b8"])] if quick else \
+            DIRECT + ["r8g8b8", "a4", "a2r10g10b10"]
+        mx = fill_matrix_scenarios(rng, quick, mfm, "fill")
+        chk.extra["directed_fill_matrix_executions"] = len(mx)
+        nbase = len(execs)
+        execs += mx
         chains = CHAINS
-        per_chain = lambda ci: execs if (not quick or ci in (0, 3)) else execs[ci::2]
+        # quick: everything under the full and the general-only chain; half of the sweeps under the two in between
+        per_chain = lambda ci: execs if (not quick or ci in (0, 3)) else execs[ci:nbase:2]
     else:
         behs, r = tlc_behaviours(200 if quick else 4800, 11 if quick else 13, args.seed)
         chk.add_tlc(r, "behaviour generation (CompositeGen, -generate)")
@@ -665,7 +839,15 @@ def run(prop, args):
             execs.append(embed_behaviour(rng, random_behaviour(rng), "rnd%d" % i, fmt, i % 7 == 6,
                                          ["SRC", "SRC", "CLEAR", "OVER", "IN", "OUT", "ADD", "XOR"] if i % 3 else OPS_BASIC))
         chains = ["", "fast mmx sse2 ssse3"]
-        per_chain = lambda ci: execs[ci::2]
+        # directed matrices: always with every implementation enabled (the shortcuts live there); thorough: both chains
+        mfm = [rng.choice(["a8r8g8b8", "x8r8g8b8", "r5g6b5"]), rng.choice(["a8", "a1"])] if quick else DIRECT + ["r8g8b8", "a4"]
+        dfm = [rng.choice(["a1", "a4"]), rng.choice(["a8", "a8r8g8b8", "r5g6b5", "r8g8b8"])] if quick else \
+            ["a1", "a4", "a8", "r8g8b8", "r5g6b5", "a8r8g8b8", "x8r8g8b8", "a1r1g1b1"]
+        directed = fill_matrix_scenarios(rng, quick, mfm, "frame") + draw_matrix_scenarios(rng, quick, dfm)
+        chk.extra["directed_matrix_executions"] = len(directed)
+        nrand = len(execs)
+        execs += directed
+        per_chain = lambda ci: execs[ci:nrand:2] + (directed if (ci == 0 or not quick) else [])
     chk.extra["executions_per_chain"] = {(c or "(all implementations)"): len(per_chain(i)) for i, c in enumerate(chains)}
     by_name = {e[0][2:]: e for e in execs}
 
